@@ -69,6 +69,12 @@ def run(ctx):
     s1, _ = replay_behaviours(ctx, "base", "envelope-replay", r.replays, "envelope")
     r = ctx.tlc(SPEC, "UpdateKeys.tla", "UpdateKeys.cfg", workers=4, timeout=900)
     s2, _ = replay_behaviours(ctx, "base", "updkeys-replay", r.replays, "updkeys")
+    r = ctx.tlc(SPEC, "TxBuilder.tla", "TxBuilder.cfg", workers=1, timeout=900)
+    blines = [x for x in r.replays if '"ops"' in x]   # the instantiated TxEnvelope!EExport prints one constant record: not a behaviour
+    s3, _ = replay_behaviours(ctx, "base", "builder-replay", blines, "builder")
+    ctx.extra["builder_behaviours"] = s3["by_action"]
+    if s3["by_action"].get("finalize verifies:true", 0) < 5 or s3["by_action"].get("finalize verifies:false", 0) < 5 or s3["by_action"].get("add_sponsor:ok", 0) < 50:
+        raise ToolError("vacuous builder run: %s" % s3["by_action"])
     ctx.extra["envelope_vectors"] = s1["by_action"]
     ctx.extra["update_signer_vectors"] = s2["by_action"]
     if sum(s1["by_action"].values()) < 50 or s2["by_action"].get("expect:true", 0) < 50 or s2["by_action"].get("expect:false", 0) < 50:
